@@ -105,6 +105,10 @@ def run(ctx):
     el = f(c['avgloss'])
     got = {
         'evaluate_average_loss': float(models.evaluate_average_loss(params, batches, key, loss, fn['reg'])),
+        # one-pass inputs: a generator / iterator over the same batches
+        'evaluate_average_loss(generator)': float(models.evaluate_average_loss(params, (b for b in batches), key, loss, fn['reg'])),
+        'evaluate_average_loss(iterator)': float(models.evaluate_average_loss(params, iter(batches), key, loss, fn['reg'])),
+        'AverageLossEvaluator.global(generator)': float(dict(fn['ale'].evaluate_global_params(params, ((cid_, (b for b in bs_), k_) for cid_, bs_, k_ in [(b'c', batches, key)])))[b'c']),
         'AverageLossEvaluator.global': float(dict(fn['ale'].evaluate_global_params(params, [(b'c', batches, key)]))[b'c']),
         'AverageLossEvaluator.per_client': float(dict(fn['ale'].evaluate_per_client_params([(b'c', batches, key, params)]))[b'c']),
     }
@@ -137,6 +141,10 @@ def run(ctx):
     c = None
     while c is None:
       c = island.random_instance(rng, fedjax, leaves=2, dyadic=True, allow_momentum=False, max_clients=4, rounds=1)
+    if i % 2 == 1 and c['h']['epochs'] is not None and all(c['inst']['data']):
+      # a client without any example next to clients with examples (its mean gradient is 0/0 unless summed before dividing)
+      c['inst']['data'] = c['inst']['data'] + [[]]
+      c['inst']['stream'] = island.real_streams(fedjax, island.datasets(fedjax, c['inst']['data']), island.hparams(fedjax, c['h']))
     c['inst']['cohorts'] = [list(range(1, len(c['inst']['data']) + 1))]
     sizes = [len(d) for d in c['inst']['data']]
     geoms = [(1, 1), (2, 1), (3, 2), (4, 3), (7, 1), (8, 4)] if big else [(1, 1), (3, 2), (8, 4)]
@@ -172,6 +180,8 @@ def run(ctx):
           ev.append({'e': 'Fact', 'name': 'Runs', 'about': f'{aname} {name}: {rec["error"]}', 'holds': False})
         else:
           st = rec['states'][-1]
+          ev.append({'e': 'Fact', 'name': 'Finite', 'about': f'{aname} {name} geometry {(bs, bk)}: params {rec["rounds"][-1]}',
+                     'holds': bool(np.all(np.isfinite(rec['rounds'][-1])))})
           ev.append({'e': 'Call', 'key': f'{aname} state after a round ({name})', 'out': tol((rec['rounds'][-1], jax.tree_util.tree_leaves(st.opt_state)))})
     ctx.case(key=('geom', i), nontrivial=sum(sizes) > 2, n=len(geoms))
   vs, _ = vtraces.validate_batch(ctx, 'PureHistory', [{'events': ev}], {}, 'PH')
